@@ -1,5 +1,10 @@
 """C15 — reflink modes keep their contract."""
+import os
+import shutil
+
+import core
 import datapath
+import fsutil
 import xcp
 from datapath import Case
 
@@ -77,7 +82,98 @@ def nontrivial(case, o):
 def run(ctx, out):
     out.rule = ("single files x both drivers x reflink {never, always, auto} x clone ioctl answered by the real file system "
                 "(EOPNOTSUPP on ext4), by each 'unsupported' errno (EOPNOTSUPP EINVAL EXDEV ETXTBSY), by a hard errno "
-                "(EIO EPERM ENOSPC), or emulated as successful (return 0, ioctl skipped) by the supervisor; distinct = "
-                "distinct case tuple")
+                "(EIO EPERM ENOSPC), or emulated as successful (return 0, ioctl skipped) by the supervisor; plus trees of 12 files "
+                "where the answer differs from file to file (refused for the first 1 or 3, successful after; real; successful "
+                "for all): the contract is judged per file; distinct = distinct case tuple")
     out.assumptions.append("C15: a real successful clone is never exercised here (ext4 has no reflink); success is emulated")
     datapath.run_cases(ctx, out, gen(ctx), "C15", oracle, nontrivial)
+    run_trees(ctx, out)
+
+
+def run_trees(ctx, out):
+    """`for all trees`: the contract holds PER FILE — what the clone call answered for one file says nothing about the
+    next (another file system may sit below a mount point, or be the home of another source).  Trees of 12 files in 3
+    directories, both drivers, workers 1/2/4; the clone ioctl is answered by the real file system, refused for the
+    first k files only (each unsupported errno) and emulated as successful for the rest, or emulated for all."""
+    rng = ctx.rng
+    quick = ctx.tier == "quick"
+    sup = core.build_sup()
+    d0 = ctx.work.fresh("c15tree")
+    k = 0
+    plans = [("real", None, 0)] + [("refused-%s-then-ok" % n, e, kk) for n, e in UNSUP.items() for kk in (1, 3)] + [("ok-for-all", None, -1)]
+    for driver in ("parfile", "parblock"):
+        for mode in ("auto", "never", "always"):
+            for (lab, errno, nref) in plans:
+                if quick and lab not in ("real", "ok-for-all", "refused-EOPNOTSUPP-then-ok", "refused-EXDEV-then-ok") :
+                    continue
+                if quick and nref == 3 and mode != "auto":
+                    continue
+                k += 1
+                d = os.path.join(d0, "t%d" % k)
+                files = []
+                for i in range(12):
+                    sub = os.path.join(d, "src", "d%d" % (i % 3))
+                    os.makedirs(sub, exist_ok=True)
+                    p = os.path.join(sub, "f%02d" % i)
+                    fsutil.make_file(p, 1 + 3000 * i, [(0, 1 + 3000 * i)], tag=k * 16 + i + 1, sync=False)
+                    files.append(os.path.relpath(p, os.path.join(d, "src")))
+                w = rng.choice([1, 2, 4])
+                rules = []
+                if nref > 0:
+                    rules = [("fail", errno, 0, "ioctl", j, "/dst/") for j in range(1, nref + 1)] + [("ret", 0, 0, "ioctl", 0, "/dst/")]
+                elif nref < 0:
+                    rules = [("ret", 0, 0, "ioctl", 0, "/dst/")]
+                argv = [ctx.bins["xcp"], "-r", "-T", "--driver", driver, "-w", str(w), "--reflink", mode, "--block-size", "4096", "src", "dst"]
+                r = xcp.run_supervised(sup, argv, d, d, rules=rules, tag="t", timeout_ms=60000)
+                out.case(("tree", driver, mode, lab, w), nontrivial=True)
+                out.count("tree_" + mode + "_" + ("real" if nref == 0 else "emulated"))
+                rep = dict(argv=argv[1:], rules=rules, answers=lab, exit=r.exit, stderr=r.stderr[-300:])
+                dst = os.path.join(d, "dst")
+                per = {}
+                for e in r.trace:
+                    if e.get("ret") is None:
+                        continue
+                    if e["sys"] == "ioctl" and e["a"][1] == xcp.FICLONE and e["p1"].startswith(dst):
+                        per.setdefault(e["p1"], dict(clone=[], data=[]))["clone"].append((e["e"], e["ret"]))
+                    elif e["sys"] in ("copy_file_range", "write", "pwrite64", "sendfile"):
+                        tp = e["p2"] if e["sys"] == "copy_file_range" else e["p1"]
+                        if tp.startswith(dst):
+                            per.setdefault(tp, dict(clone=[], data=[]))["data"].append(e["e"])
+                if mode == "never":
+                    bad = [p for p, v in per.items() if v["clone"]]
+                    if bad:
+                        out.violation("reflink=never but a clone request was issued for %s" % bad[:2], rep)
+                    continue
+                created = [os.path.join(dst, f) for f in files if os.path.exists(os.path.join(dst, f))]
+                if mode == "auto":
+                    if r.exit != 0:
+                        out.violation("reflink=auto failed (exit %d) although every clone answer was `unsupported` or success" % r.exit, rep)
+                        continue
+                    for p in created:
+                        if os.path.getsize(p) == 0 and p not in per:
+                            continue          # empty file: nothing to clone or copy is acceptable
+                        v = per.get(p, dict(clone=[], data=[]))
+                        if not v["clone"]:
+                            out.violation("reflink=auto did not try to clone %s (it did for %d other files of the same run)"
+                                          % (os.path.relpath(p, dst), sum(1 for q in per.values() if q["clone"])), rep)
+                            break
+                        if v["data"] and min(v["data"]) < v["clone"][0][0]:
+                            out.violation("reflink=auto copied data of %s before trying to clone it" % os.path.relpath(p, dst), rep)
+                            break
+                        if v["clone"][0][1] == 0 and v["data"]:
+                            out.violation("reflink=auto copied data of %s although its clone succeeded" % os.path.relpath(p, dst), rep)
+                            break
+                        if v["clone"][0][1] != 0 and not datapath.files_equal(os.path.join(d, "src", os.path.relpath(p, dst)), p):
+                            out.violation("reflink=auto fell back for %s but the copy is not byte-exact" % os.path.relpath(p, dst), rep)
+                            break
+                else:   # always
+                    if r.exit == 0:
+                        notcl = [p for p in created if not any(ret == 0 for _, ret in per.get(p, dict(clone=[]))["clone"])]
+                        if notcl or len(created) != len(files):
+                            out.violation("reflink=always exited 0 although %d of %d files were not produced by a successful clone"
+                                          % (len(notcl) + len(files) - len(created), len(files)), rep)
+                        elif any(v["data"] for v in per.values()):
+                            out.violation("reflink=always exited 0 but copied data besides cloning", rep)
+                    elif nref < 0:
+                        out.violation("reflink=always failed (exit %d) although every clone succeeded" % r.exit, rep)
+                shutil.rmtree(d, ignore_errors=True)
